@@ -67,6 +67,14 @@ def main():
                 fr = fr.f_back
             if not any(f[0].startswith(core.REPO_SRC) for f in frames):
                 continue
+            if any(f[0].endswith(("detsched.py", "plansched.py")) for f in frames):
+                # the run is being driven by the baton scheduler: it may be the instrumentation, not the library, that does not progress
+                ctx.broke("an instrumented (controlled-schedule) run made no progress for %d s: the engine blocks in something the scheduler does not replace, "
+                          "or hangs" % stall, {"stack_innermost_first": ["%s:%d %s" % (os.path.relpath(f[0], "/"), f[2], f[1]) for f in frames[:25]], "last_case": repr(ctx.last_case)})
+                rc = core.finish(ctx, pinfo, gate_hits, build_ok, build_log,
+                                 trusted_base=getattr(mod, "TRUSTED_BASE", []) + core_tb(), rule=getattr(mod, "RULE", ""))
+                sys.stdout.flush()
+                os._exit(rc or 1)
             where = next((f for f in frames if f[0].startswith(hdir) and not f[0].endswith(("main.py", "core.py"))), ("?", "?", 0))
             lib = next(f for f in frames if f[0].startswith(core.REPO_SRC))
             ctx.fail("hang:%s" % where[1], "a call into uberjob made by harness/%s:%s (line %d) has not returned for %d s: the main thread is in %s:%d (%s); "
